@@ -160,6 +160,19 @@ def shard(ctx: Ctx) -> None:
 
     ctx.search(st.tuples(st_angle(), st_tol()), body, n, name="c19")
 
+    def body_hist(t):
+        # the result may not depend on earlier calls: same angle, coarse tolerance first, then a finer one
+        angle, tol_a, tol_b = t
+        coarse, fine = max(tol_a, tol_b), min(tol_a, tol_b)
+        guarded(check_angle, {"kind": "history", "angle": repr(angle), "tols": [repr(coarse), repr(fine)]}, angle, coarse)
+        try:
+            guarded(check_angle, {"kind": "history", "angle": repr(angle), "tols": [repr(coarse), repr(fine)]}, angle, fine)
+        except Failure as f:
+            raise Failure(f.signature + ":after-coarser-call", {"kind": "history", "angle": repr(angle), "tols": [repr(coarse), repr(fine)]}, f.message + f" (after a call for the same angle with tolerance {coarse!r})")
+        stt.case(["hist", repr(angle), repr(coarse), repr(fine)], coarse != fine, ["history"])
+
+    ctx.search(st.tuples(st_angle(), st.floats(-9.0, -2.0).map(lambda e: 10.0**e), st.floats(-9.0, -2.0).map(lambda e: 10.0**e)), body_hist, n // 10, name="c19-hist", salt=2)
+
     def body_p(t):
         angle, axis = t
         steps = guarded(check_pipeline, {"kind": "pipeline", "angle": repr(angle), "axis": axis}, angle, axis)
@@ -172,7 +185,10 @@ def replay(case):
     signal.signal(signal.SIGALRM, _alarm)
     signal.alarm(20)
     try:
-        if case["kind"] == "spec":
+        if case["kind"] == "history":
+            for t in case["tols"]:
+                check_angle(float(case["angle"]), float(t))
+        elif case["kind"] == "spec":
             tol = case["tol"]
             check_angle(float(case["angle"]), None if tol in (None, "None") else float(tol))
         else:
